@@ -1020,7 +1020,7 @@ class AnyBetween(__Class):
         '''
         for c in (start, end):
             if isinstance(c, (str, _pre.Pregex)):
-                if len(str(c).replace("\\", "", 1) if isinstance(c, _pre.Pregex) else c) > 1:
+                if len(str(c).replace("\\", "", 1) if isinstance(c, _pre.Pregex) else c) != 1:
                     message = f"Argument \"{c}\" is neither a string nor a token."
                     raise _ex.InvalidArgumentTypeException(message)
             else:
@@ -1067,7 +1067,7 @@ class AnyButBetween(__Class):
         '''
         for c in (start, end):
             if isinstance(c, (str, _pre.Pregex)):
-                if len(str(c).replace("\\", "", 1) if isinstance(c, _pre.Pregex) else c) > 1: 
+                if len(str(c).replace("\\", "", 1) if isinstance(c, _pre.Pregex) else c) != 1: 
                     message = f"Argument \"{c}\" is neither a string nor a token."
                     raise _ex.InvalidArgumentTypeException(message)
             else:
@@ -1113,7 +1113,7 @@ class AnyFrom(__Class):
             raise _ex.NotEnoughArgumentsException(message)
         for c in chars:
             if isinstance(c, (str, _pre.Pregex)):
-                if len(str(c).replace("\\", "", 1) if isinstance(c, _pre.Pregex) else c) > 1: 
+                if len(str(c).replace("\\", "", 1) if isinstance(c, _pre.Pregex) else c) != 1: 
                     message = f"Argument \"{c}\" is neither a string nor a token."
                     raise _ex.InvalidArgumentTypeException(message)
             else:
@@ -1156,7 +1156,7 @@ class AnyButFrom(__Class):
             raise _ex.NotEnoughArgumentsException(message)
         for c in chars:
             if isinstance(c, (str, _pre.Pregex)):
-                if len(str(c).replace("\\", "", 1) if isinstance(c, _pre.Pregex) else c) > 1: 
+                if len(str(c).replace("\\", "", 1) if isinstance(c, _pre.Pregex) else c) != 1: 
                     message = f"Argument \"{c}\" is neither a string nor a token."
                     raise _ex.InvalidArgumentTypeException(message)
             else:
